@@ -39,6 +39,8 @@ var bigInts = []string{"4611686018427387904", "-4611686018427387904", "922337203
 // ---------------------------------------------------------------------------------------------
 // C12: slices, bounded-exhaustive
 
+var specs13 = []string{":", "::", "1:", ":2", "1:3", "::2", "::-1", "-2:", ":-1", "3:1:-1", "0:0", "10:", "::0"}
+
 func genSlices(c *GenCtx) {
 	maxN := c.n(4, 7)
 	mixed := []string{"a", "é", "€", "😀", "b", "\u0301", "c", "я"}
@@ -79,7 +81,19 @@ func genSlices(c *GenCtx) {
 		`{"a":[[1,2,3],[4,5],"xyz",null],"s":"","o":{},"n":null}`}
 	tails := []string{"", ".b", "[0]", "[*]", ".b[0]", "[]", " | [0]", "[1:]", ".*", "[?b]"}
 	heads := []string{"a", "s", "o", "n", "a[*]", "a[]", "@.a", "missing"}
-	specs := []string{":", "::", "1:", ":2", "1:3", "::2", "::-1", "-2:", ":-1", "3:1:-1", "0:0", "10:", "::0"}
+	// bracket forms with no left operand: at the start, after a pipe, in parentheses, as an argument, as a member
+	lead := []string{"%s", "@ | %s", "(%s)", "to_array(%s)", "[%s]", "{k: %s}", "a && %s", "!%s", "a | %s"}
+	ldocs := []string{`["a",null,"b",null,"c"]`, `[[1,null],null,[null,2],{"b":null}]`, `"héllo"`, `{"a":[null,1]}`}
+	for _, d := range ldocs {
+		for _, l := range lead {
+			for _, t := range []string{"", "[0]", ".b", "[*]", " | [0]", "[1:]", "[]"} {
+				for _, s := range append([]string{"*", "?@", "0", "-1", ""}, specs13...) {
+					c.add("slice-lead", fmt.Sprintf(l, "["+s+"]"+t), d)
+				}
+			}
+		}
+	}
+	specs := specs13
 	for _, d := range docs {
 		for _, h := range heads {
 			for _, s := range specs {
@@ -147,6 +161,20 @@ var fnSigs = []fnSig{
 
 // one representative per JSON type (and the interesting sub-cases)
 var typeReps = []string{"null", "true", "1", "-1", "2.5", `"abc"`, `""`, `[1,2]`, `["a","b"]`, `[]`, `{"a":1}`, `{}`}
+
+// a well-typed argument vector of maximal arity per builtin
+var validArgs = map[string][]string{
+	"abs": {"`-1`"}, "avg": {"`[1,2]`"}, "ceil": {"`1.5`"}, "contains": {"'abc'", "'b'"}, "ends_with": {"'abc'", "'c'"},
+	"find_first": {"'abcabc'", "'b'", "`1`", "`5`"}, "find_last": {"'abcabc'", "'b'", "`1`", "`5`"}, "floor": {"`1.5`"},
+	"from_items": {"`[[\"a\",1]]`"}, "group_by": {"`[{\"a\":\"x\"}]`", "&a"}, "items": {"`{\"a\":1}`"}, "join": {"','", "`[\"a\",\"b\"]`"},
+	"keys": {"`{\"a\":1}`"}, "length": {"'abc'"}, "lower": {"'ABC'"}, "map": {"&@", "`[1,2]`"}, "max": {"`[1,2]`"},
+	"max_by": {"`[{\"a\":1}]`", "&a"}, "merge": {"`{\"a\":1}`", "`{\"b\":2}`", "`{\"a\":3}`"}, "min": {"`[1,2]`"}, "min_by": {"`[{\"a\":1}]`", "&a"},
+	"not_null": {"`null`", "`1`", "`2`"}, "pad_left": {"'abc'", "`5`", "'-'"}, "pad_right": {"'abc'", "`5`", "'-'"},
+	"replace": {"'abcabc'", "'b'", "'x'", "`1`"}, "reverse": {"'abc'"}, "sort": {"`[2,1]`"}, "sort_by": {"`[{\"a\":1}]`", "&a"},
+	"split": {"'a,b,c'", "','", "`1`"}, "starts_with": {"'abc'", "'a'"}, "sum": {"`[1,2]`"}, "to_array": {"`1`"}, "to_number": {"'1'"},
+	"to_string": {"`1`"}, "trim": {"' a '", "' '"}, "trim_left": {"' a '", "' '"}, "trim_right": {"' a '", "' '"}, "type": {"`1`"},
+	"upper": {"'abc'"}, "values": {"`{\"a\":1}`"}, "zip": {"`[1,2]`", "`[3,4]`", "`[5,6]`"},
+}
 
 var expReps = []string{"&@", "&a", "&to_string(@)", "&length(@)"}
 
@@ -218,6 +246,30 @@ func genArgs(c *GenCtx) {
 				args[i] = "&a"
 			}
 			c.add("args-expref", c.fnCall(sig, args), doc)
+		}
+	}
+	// one position at a time away from a well-typed call: every arity, every position, every type representative (as a
+	// literal and as a reference into the document), so that no optional position is left to sampling
+	for _, sig := range fnSigs {
+		base, ok := validArgs[sig.name]
+		if !ok {
+			continue
+		}
+		for ar := sig.min; ar <= len(base); ar++ {
+			for pos := 0; pos < ar; pos++ {
+				if pos == sig.expAt {
+					continue
+				}
+				subs := []string{"missing", "nul", "@", "$"}
+				for _, t := range typeReps {
+					subs = append(subs, bt(t))
+				}
+				for _, sub := range subs {
+					args := append([]string(nil), base[:ar]...)
+					args[pos] = sub
+					c.add("args-oneoff", c.fnCall(sig, args), `{"nul":null,"a":1}`)
+				}
+			}
 		}
 	}
 	// malformed argument lists: at every position a missing comma, a wrong closing token, a trailing comma, nothing
@@ -1232,6 +1284,18 @@ func genTokens(c *GenCtx) {
 			sep = ""
 		}
 		c.add("tokens-rand", strings.Join(parts, sep), doc)
+	}
+	// character classes: every ASCII byte (and a few runes beyond) at the start and in the middle of an identifier, a variable
+	// name, a function name and a number
+	var chars []string
+	for b := 1; b < 0x80; b++ {
+		chars = append(chars, string(rune(b)))
+	}
+	chars = append(chars, "é", "\u00d7", "\u2212", "\u00f7", "\u0660", "\uff21", "\u200b")
+	for _, ch := range chars {
+		for _, f := range []string{"%sx", "x%sy", "x%s", "let $%sx = a in $%sx", "let $x%sy = a in $x%sy", "$%sx", "%sabs(foo)", "abs%s(foo)", "a[1%s]", "a[%s1]", "b.%sa", "b.a%s"} {
+			c.add("tokens-charclass", strings.ReplaceAll(f, "%s", ch), doc)
+		}
 	}
 	// what may and may not follow a projection in brackets: every opener × every bracket content × a suffix
 	openers := []string{"a[*]", "a[]", "a[?a]", "b.*", "a[1:]", "a[0]", "a", "[*]", "[]", "*", "a[*].b", "b.a", "@", "a[::2]"}
